@@ -237,8 +237,13 @@ func min(a, b int) int {
 // scanner's state stack and the parser's value stack.
 func Deep(t *rapid.T) []byte {
 	n := rapid.SampledFrom([]int{3, 17, 64, 130, 257, 1025}).Draw(t, "depth")
+	return append([]byte("<?php "), deepBody(t, n)...)
+}
+
+// deepBody is one statement nested n levels deep in a drawn bracket kind.
+func deepBody(t *rapid.T, n int) []byte {
 	var open, close, mid string
-	switch rapid.IntRange(0, 6).Draw(t, "nestkind") {
+	switch rapid.IntRange(0, 8).Draw(t, "nestkind") {
 	case 0:
 		open, close, mid = "{ ", " }", "echo 1;"
 	case 1:
@@ -251,6 +256,13 @@ func Deep(t *rapid.T) []byte {
 		open, close, mid = "if ($a) { ", " }", "$b = 1;"
 	case 5:
 		open, close, mid = "$a[", "]", "0"
+	case 6:
+		open, close, mid = "function () { ", " };", "return 1;"
+	case 7:
+		open, close, mid = "\"{${", "}}\"", "$v"
+		if n > 64 {
+			n = 64
+		}
 	default:
 		open, close, mid = "\"{$a[", "]}\"", "1"
 		if n > 130 {
@@ -258,8 +270,7 @@ func Deep(t *rapid.T) []byte {
 		}
 	}
 	var b []byte
-	b = append(b, "<?php "...)
-	if open == "(" || open == "[" || open == "f(" || open == "$a[" || open[0] == '"' {
+	if open == "(" || open == "[" || open == "f(" || open == "$a[" || open[0] == '"' || open == "function () { " {
 		b = append(b, "$r = "...)
 	}
 	for i := 0; i < n; i++ {
@@ -269,8 +280,44 @@ func Deep(t *rapid.T) []byte {
 	for i := 0; i < n; i++ {
 		b = append(b, close...)
 	}
-	if open != "{ " && open != "if ($a) { " {
+	if open != "{ " && open != "if ($a) { " && open != "function () { " {
 		b = append(b, ';')
+	}
+	return b
+}
+
+// Segments draws a program made of two to five independent regions one after the other — deeply
+// nested statements of drawn depths (around the powers of two at which stacks grow), runs of a
+// repeated statement, string-like constructs, corpus snippets, stray closers — so that whatever the
+// scanner or parser keeps from one region (a grown or trimmed stack, a memo, a pending label) meets
+// the next region. A single deep or long region does not exercise that hand-over.
+func Segments(t *rapid.T) []byte {
+	b := []byte("<?php\n")
+	n := rapid.IntRange(2, 5).Draw(t, "segments")
+	for i := 0; i < n; i++ {
+		switch rapid.IntRange(0, 7).Draw(t, "segment") {
+		case 0, 1, 2:
+			d := rapid.SampledFrom([]int{1, 2, 7, 8, 9, 10, 15, 16, 17, 31, 32, 33, 40, 64, 65, 129}).Draw(t, "depth")
+			b = append(b, deepBody(t, d)...)
+		case 3:
+			u := rapid.SampledFrom(manyUnits).Draw(t, "unit")
+			for k, m := 0, rapid.IntRange(1, 40).Draw(t, "reps"); k < m; k++ {
+				b = append(b, strings.Replace(u, "%d", strconv.Itoa(i*100+k), 1)...)
+			}
+		case 4:
+			b = append(b, rapid.SampledFrom([]string{"$h = <<<X\n a {$b[\"k\"]} ${c} $d->e \\\\\nX;\n", "$s = \"x{$a->b[1]}y\\\"z$c[0]\";\n", "$n = <<<'N'\n raw $x\nN;\n", "echo `ls {$d}`;\n", "?>html <?= $x ?> more\n<?php\n"}).Draw(t, "stringlike")...)
+		case 5:
+			s := Seed(t)
+			if len(s) > 5 && len(s) < 600 && string(s[:5]) == "<?php" {
+				b = append(b, s[5:]...)
+				b = append(b, ";\n?><?php\n"...)
+			}
+		case 6:
+			b = append(b, rapid.SampledFrom([]string{"}\n", "} }\n", ")\n", "]\n", "endif;\n", "\"\n", "*/\n"}).Draw(t, "stray")...)
+		default:
+			b = append(b, "$x = 1;\n"...)
+		}
+		b = append(b, '\n')
 	}
 	return b
 }
@@ -299,6 +346,8 @@ func anyBody(t *rapid.T) ([]byte, string) {
 		return LongLexemes(t), "long-lexemes"
 	case 2:
 		return ManyStatements(t), "many-statements"
+	case 3, 4:
+		return Segments(t), "segments"
 	}
 	switch rapid.IntRange(0, 6).Draw(t, "source") {
 	case 6:
